@@ -169,10 +169,15 @@ fn mk_delta(case: &Value) -> Delta {
             delta.ops.push(DeltaOp::Literal(bytes_of(&op["lit"])));
         }
     }
-    let ck = unhex(d["checksum"].as_str().unwrap());
-    let mut a = [0u8; 32];
-    a.copy_from_slice(&ck);
-    delta.checksum = StrongHash::from_bytes(a);
+    if let Some(of) = d.get("checksum_of") {
+        // checksum := real BLAKE3 of the given bytes (models found under the hash shim are re-keyed)
+        delta.checksum = StrongHash::compute(&bytes_of(of));
+    } else {
+        let ck = unhex(d["checksum"].as_str().unwrap());
+        let mut a = [0u8; 32];
+        a.copy_from_slice(&ck);
+        delta.checksum = StrongHash::from_bytes(a);
+    }
     delta
 }
 
